@@ -1,3 +1,30 @@
 add("C20", "checks/c20_heap.c", ["heap-asan", "heap-plain"], ["heap-asan", "heap-plain"],
-    "placeholder",
-    extra_sources=["kit/ref_queue.c"])
+    "cases: phase 'enumerated' = one block per (heap size 2..12, capacity 1..4, 2-letter prefix) that runs EVERY history of length L over "
+    "{push without text, push with a text of 1, H/2, H-1, H characters (duplicates removed), pop (SYST:ERR? / SCPI_ErrorPop alternating by "
+    "position), clear} with that prefix (L = 6 quick, 8 thorough in the gcc -O2 build, 7 under ASan); phase 'enumerated_rich' = the same over "
+    "{no text, 1, 2, H/2, H-2, H-1, H characters, SCPI_ErrorPop, SYST:ERR?, clear} with L = 5 quick / 6 thorough in both builds; all "
+    "shorter histories are prefixes and every operation is checked when executed; queue overflow arises by construction (capacity < pushes). "
+    "phase 'random' = one history per case of up to 10^4 operations on heaps of 2..600 bytes, capacity 1..32, text lengths from 0 to beyond "
+    "the heap size, explicit / automatic / beyond-terminator length. Every push has its own code and letter pattern. evaluations = operations "
+    "executed on the real library and compared with the model; distinct_nontrivial = 1/64 subsample of enumerated histories + one key per "
+    "random history (lower bound)",
+    extra_sources=["kit/ref_queue.c"],
+    exhaustive=dict(quick=False, thorough=False),
+    technique="model-based runtime monitor of the -DUSE_MEMORY_ALLOCATION_FREE=0 build: real queue + static text heap vs kit/ref_queue with the "
+              "relaxed rule 'exactly the pushed text or none'; pops through SYST:ERR? (own IEEE 488.2 string reader) and through "
+              "SCPI_ErrorPop + scpiheap_get_parts + scpiheap_free; text heap and queue array are exact-size mallocs under ASan+UBSan, "
+              "surrounded by guard bytes in the gcc -O2 build; 'text must be stored' oracle for every fitting text pushed onto the empty queue",
+    level_text="exploration by execution: exhaustive enumeration of all histories up to length 6 (quick) / 8 (thorough) over a 5..7-letter "
+               "alphabet for every heap size 2..12 x capacity 1..4, plus a richer 10-letter alphabet at length 5 / 6, plus random long "
+               "histories on heaps up to 600 bytes; text lengths are taken from a boundary set per heap size, not all lengths 0..H",
+    level_note="trusted: kit/ref_queue.c, the response reader, sanitizer runtimes. Sources of explicit-length pushes carry one extra "
+               "(non-NUL) byte after the text because scpiheap_strndup reads text[len] (reported separately by C18; reads are outside this "
+               "statement, which speaks about writes). Texts are released by the client immediately and in pop order (what SYST:ERR? does); "
+               "out-of-order release by an API client is outside the statement and not exercised. For SYST:ERR? answers beyond the 255 "
+               "characters of SCPI-99 21.8 only 'is a prefix' is asserted; codes/order/count are compared with the model because the text "
+               "oracle needs to know which push an entry belongs to",
+    assumptions=["kit/ref_queue.c implements the FIFO with overflow marker of property C10; the text rule is relaxed to 'pushed text or none'",
+                 "'completely reusable once the queue is empty' is read as: a text of 1..heap_size-1 characters pushed onto the empty queue "
+                 "(all popped texts released) must be stored",
+                 "with automatic length (info_len 0) a text longer than 255 characters may be stored cut at 255",
+                 "gcc -O2 and clang -O1 ASan+UBSan builds of the working tree with -DUSE_MEMORY_ALLOCATION_FREE=0"])
